@@ -1,272 +1,238 @@
-(* Proofs about the par.Cache model (ParCache.v): f runs at most once per key (exactly once when
-   somebody asked), Do returns f's value and only after f completed, Get never blocks and
-   returns nil or that value, the two plain accesses to e.result never race, no deadlock,
-   and every schedule is finite.  For every set of programs and every schedule. *)
+(* Proofs about the par.Cache model (ParCache.v), part 2: f runs at most once per key (exactly once
+   when somebody asked), Do returns f's value and only after f completed, also for Do calls nested
+   in f; Get never blocks and returns nil or that value (nil only before the computation finished);
+   the two plain accesses to e.result never race; no deadlock and termination when the
+   dependency relation between keys is acyclic.  For every set of programs and every schedule. *)
 From Coq Require Import List Arith Bool Lia.
-From GI Require Import Gen.ParConsts Par.ParWork Par.ParLib Par.ParCache.
+From GI Require Import Gen.ParConsts Par.ParWork Par.ParLib Par.ParCache Par.ParCacheBase.
 Import ListNotations.
 
-(* the two facts about the regenerated constants everything below rests on *)
-Lemma done_zero_is_not_done : Nat.eqb 0 cache_done_test = true.
-Proof. reflexivity. Qed.
-Lemma done_value_is_done : Nat.eqb cache_done_value cache_done_test = false.
-Proof. reflexivity. Qed.
-
-Definition is_call (k : nat) (p : cpc) : bool := match p with DCall k' => Nat.eqb k' k | _ => false end.
-Definition is_inf (k : nat) (p : cpc) : bool := match p with DInF k' => Nat.eqb k' k | _ => false end.
-Definition is_wr (k : nat) (p : cpc) : bool := match p with DWrite k' _ => Nat.eqb k' k | _ => false end.
-Definition is_st (k : nat) (p : cpc) : bool := match p with DStore k' => Nat.eqb k' k | _ => false end.
-
-(* number of threads whose pc satisfies g *)
-Definition C (g : cpc -> bool) (l : list thr) : nat := cntg (fun th => g (tpc th)) l.
-
-Lemma C_set_nth g t th th' l : nth_error l t = Some th ->
-  C g (set_nth t th' l) + b2n (g (tpc th)) = C g l + b2n (g (tpc th')).
-Proof. intros H; unfold C; apply (cntg_set_nth (fun th => g (tpc th)) t th' th l H). Qed.
-
-Lemma C_cons g th l : C g (th :: l) = b2n (g (tpc th)) + C g l.
-Proof. exact (cntg_cons (fun th => g (tpc th)) th l). Qed.
-
-Lemma C_ge1 g l t th : nth_error l t = Some th -> g (tpc th) = true -> 1 <= C g l.
-Proof. intros H Hg; unfold C; eapply (cntg_ge1 (fun th => g (tpc th))); eauto. Qed.
-
-Lemma C_sum_le k l : C (is_call k) l + C (is_inf k) l + C (is_wr k) l + C (is_st k) l <= C (holds k) l.
-Proof.
-  induction l as [|th l IH]; [reflexivity|]. rewrite !C_cons.
-  destruct (tpc th); simpl; try lia; destruct (Nat.eqb _ k); simpl; lia.
-Qed.
-
-Lemma C_ge2 g l : forall a b tha thb, a <> b -> nth_error l a = Some tha -> nth_error l b = Some thb ->
-  g (tpc tha) = true -> g (tpc thb) = true -> 2 <= C g l.
-Proof.
-  induction l as [|x l IH]; intros [|a] [|b] tha thb Hab Ha Hb Hga Hgb; simpl in *; try congruence; rewrite !C_cons.
-  - inversion Ha; subst. pose proof (C_ge1 g l b thb Hb Hgb). rewrite Hga. simpl. lia.
-  - inversion Hb; subst. pose proof (C_ge1 g l a tha Ha Hga). rewrite Hgb. simpl. lia.
-  - assert (a <> b) by congruence. specialize (IH a b tha thb H Ha Hb Hga Hgb). lia.
-Qed.
-
-Lemma start_cur_neutral l :
-  forall k, holds k (fst (start l)) = false /\ is_call k (fst (start l)) = false /\ is_inf k (fst (start l)) = false
-    /\ is_wr k (fst (start l)) = false /\ is_st k (fst (start l)) = false.
-Proof. intros k; destruct l as [|[] r]; simpl; auto. Qed.
-
-Lemma isd_done0 e : done e = 0 -> isd e = false.
-Proof. intros H; unfold isd; rewrite H, done_zero_is_not_done; reflexivity. Qed.
-Lemma isd_donev e : done e = cache_done_value -> isd e = true.
-Proof. intros H; unfold isd; rewrite H, done_value_is_done; reflexivity. Qed.
-
-Lemma isd_set_present e : isd (set_present e) = isd e. Proof. reflexivity. Qed.
-Lemma isd_set_locked b e : isd (set_locked b e) = isd e. Proof. reflexivity. Qed.
-Lemma isd_set_result v e : isd (set_result v e) = isd e. Proof. reflexivity. Qed.
-Lemma isd_inc_fbegins e : isd (inc_fbegins e) = isd e. Proof. reflexivity. Qed.
-Lemma isd_inc_fends e : isd (inc_fends e) = isd e. Proof. reflexivity. Qed.
-Lemma isd_set_done e : isd (set_done cache_done_value e) = true. Proof. apply isd_donev; reflexivity. Qed.
-
 Ltac isdsimp := rewrite ?isd_set_present, ?isd_set_locked, ?isd_set_result, ?isd_inc_fbegins, ?isd_inc_fends, ?isd_set_done in *.
-
-Section Proofs.
-Variable fval : nat -> nat.
-Variable progs : list (list call).
-
-Notation cstep := (cstep fval).
-Notation crun := (crun fval).
-Notation init := (cinit progs).
-
-Inductive creachable : cstate -> Prop :=
-| creach_init : creachable init
-| creach_step s t s' : creachable s -> cstep s t = Some s' -> creachable s'.
-
-(* ---- the step function, case by case *)
-Inductive stepC (s : cstate) (t : nat) (th : thr) : cstate -> Prop :=
-| S_load_hit k : tpc th = DLoad k -> present (ents s k) = true ->
-    stepC s t th (mkC (set_nth t (goto th (DLoad1 k)) (thrs s)) (ents s) (plain s))
-| S_load_miss k : tpc th = DLoad k -> present (ents s k) = false ->
-    stepC s t th (mkC (set_nth t (goto th (DLoadOrStore k)) (thrs s)) (ents s) (plain s))
-| S_los k : tpc th = DLoadOrStore k ->
-    stepC s t th (mkC (set_nth t (goto th (DLoad1 k)) (thrs s)) (upd k (set_present (ents s k)) (ents s)) (plain s))
-| S_l1_done k : tpc th = DLoad1 k -> isd (ents s k) = true ->
-    stepC s t th (mkC (set_nth t (goto th (DRead k)) (thrs s)) (ents s) (plain s))
-| S_l1_not k : tpc th = DLoad1 k -> isd (ents s k) = false ->
-    stepC s t th (mkC (set_nth t (goto th (DLock k)) (thrs s)) (ents s) (plain s))
-| S_lock k : tpc th = DLock k -> locked (ents s k) = false ->
-    stepC s t th (mkC (set_nth t (goto th (DLoad2 k)) (thrs s)) (upd k (set_locked true (ents s k)) (ents s)) (plain s))
-| S_l2_done k : tpc th = DLoad2 k -> isd (ents s k) = true ->
-    stepC s t th (mkC (set_nth t (goto th (DUnlock k)) (thrs s)) (ents s) (plain s))
-| S_l2_not k : tpc th = DLoad2 k -> isd (ents s k) = false ->
-    stepC s t th (mkC (set_nth t (goto th (DCall k)) (thrs s)) (ents s) (plain s))
-| S_call k : tpc th = DCall k ->
-    stepC s t th (mkC (set_nth t (goto th (DInF k)) (thrs s)) (upd k (inc_fbegins (ents s k)) (ents s)) (plain s))
-| S_fret k : tpc th = DInF k ->
-    stepC s t th (mkC (set_nth t (goto th (DWrite k (fval k))) (thrs s)) (upd k (inc_fends (ents s k)) (ents s)) (plain s))
-| S_write k v : tpc th = DWrite k v ->
-    stepC s t th (mkC (set_nth t (goto th (DStore k)) (thrs s)) (upd k (set_result (Some v) (ents s k)) (ents s))
-                      ((t, k, true) :: plain s))
-| S_store k : tpc th = DStore k ->
-    stepC s t th (mkC (set_nth t (goto th (DUnlock k)) (thrs s)) (upd k (set_done cache_done_value (ents s k)) (ents s)) (plain s))
-| S_unlock k : tpc th = DUnlock k ->
-    stepC s t th (mkC (set_nth t (goto th (DRead k)) (thrs s)) (upd k (set_locked false (ents s k)) (ents s)) (plain s))
-| S_dread k : tpc th = DRead k ->
-    stepC s t th (mkC (set_nth t (ret th (CDo k) (result (ents s k))) (thrs s)) (ents s) ((t, k, false) :: plain s))
-| S_gload_hit k : tpc th = GLoad k -> present (ents s k) = true ->
-    stepC s t th (mkC (set_nth t (goto th (GLoad1 k)) (thrs s)) (ents s) (plain s))
-| S_gload_miss k : tpc th = GLoad k -> present (ents s k) = false ->
-    stepC s t th (mkC (set_nth t (ret th (CGet k) None) (thrs s)) (ents s) (plain s))
-| S_gl1_done k : tpc th = GLoad1 k -> isd (ents s k) = true ->
-    stepC s t th (mkC (set_nth t (goto th (GRead k)) (thrs s)) (ents s) (plain s))
-| S_gl1_not k : tpc th = GLoad1 k -> isd (ents s k) = false ->
-    stepC s t th (mkC (set_nth t (ret th (CGet k) None) (thrs s)) (ents s) (plain s))
-| S_gread k : tpc th = GRead k ->
-    stepC s t th (mkC (set_nth t (ret th (CGet k) (result (ents s k))) (thrs s)) (ents s) ((t, k, false) :: plain s)).
-
-Lemma cstep_inv s t s' : cstep s t = Some s' -> exists th, nth_error (thrs s) t = Some th /\ stepC s t th s'.
-Proof.
-  unfold ParCache.cstep. destruct (nth_error (thrs s) t) as [th|] eqn:Hn; [|discriminate].
-  intros H. exists th. split; auto.
-  destruct (tpc th) eqn:Hp; try discriminate.
-  - destruct (present (ents s k)) eqn:E; injection H as <-; [eapply S_load_hit|eapply S_load_miss]; eauto.
-  - injection H as <-. eapply S_los; eauto.
-  - destruct (isd (ents s k)) eqn:E; injection H as <-; [eapply S_l1_done|eapply S_l1_not]; eauto.
-  - destruct (locked (ents s k)) eqn:E; [discriminate|]. injection H as <-. eapply S_lock; eauto.
-  - destruct (isd (ents s k)) eqn:E; injection H as <-; [eapply S_l2_done|eapply S_l2_not]; eauto.
-  - injection H as <-. eapply S_call; eauto.
-  - injection H as <-. eapply S_fret; eauto.
-  - injection H as <-. eapply S_write; eauto.
-  - injection H as <-. eapply S_store; eauto.
-  - injection H as <-. eapply S_unlock; eauto.
-  - injection H as <-. eapply S_dread; eauto.
-  - destruct (present (ents s k)) eqn:E; injection H as <-; [eapply S_gload_hit|eapply S_gload_miss]; eauto.
-  - destruct (isd (ents s k)) eqn:E; injection H as <-; [eapply S_gl1_done|eapply S_gl1_not]; eauto.
-  - injection H as <-. eapply S_gread; eauto.
-Qed.
-
-(* ---- group A: counting invariant around the mutex and the done flag *)
-Record InvA (s : cstate) : Prop := {
-  a_lock : forall k, C (holds k) (thrs s) = b2n (locked (ents s k));
-  a_done : forall k, done (ents s k) = 0 \/ done (ents s k) = cache_done_value;
-  a_nof : forall k, isd (ents s k) = true ->
-            C (is_call k) (thrs s) + C (is_inf k) (thrs s) + C (is_wr k) (thrs s) + C (is_st k) (thrs s) = 0;
-  a_fb : forall k, fbegins (ents s k) = C (is_inf k) (thrs s) + C (is_wr k) (thrs s) + C (is_st k) (thrs s) + b2n (isd (ents s k));
-  a_fe : forall k, fends (ents s k) = C (is_wr k) (thrs s) + C (is_st k) (thrs s) + b2n (isd (ents s k))
-}.
-
-Lemma C_init g : (forall l, g (fst (start l)) = false) -> C g (thrs init) = 0.
-Proof.
-  intros H. unfold cinit; simpl. induction progs as [|p l IH]; [reflexivity|].
-  simpl map. rewrite C_cons. simpl. rewrite H. simpl. exact IH.
-Qed.
-
-Lemma init_InvA : InvA init.
-Proof.
-  constructor; intros k; simpl; rewrite ?C_init; auto; try (intros l; apply (start_cur_neutral l k)).
-Qed.
-
-Ltac cfacts k t th' Hn :=
-  pose proof (C_set_nth (holds k) t _ th' _ Hn);
-  pose proof (C_set_nth (is_call k) t _ th' _ Hn);
-  pose proof (C_set_nth (is_inf k) t _ th' _ Hn);
-  pose proof (C_set_nth (is_wr k) t _ th' _ Hn);
-  pose proof (C_set_nth (is_st k) t _ th' _ Hn).
-
 Ltac csimp :=
-  cbn [tpc goto ret thrs ents plain holds is_call is_inf is_wr is_st b2n
+  rewrite ?fr_goto, ?fr_ret, ?fr_push, ?fr_mk in *;
+  cbn [tpc goto ret push thrs ents plain holds is_call is_inf is_wr is_st b2n
        present done locked result fbegins fends set_present set_done set_locked set_result inc_fbegins inc_fends] in *.
 
-(* the tactic that closes the per-key goals of the counting invariant *)
-Ltac key_case k0 k :=
-  unfold upd; destruct (Nat.eqb_spec k0 k) as [->|Hne]; csimp;
-  rewrite ?Nat.eqb_refl in *; csimp; isdsimp; csimp.
+Section Proofs.
+Variable fval : nat -> option nat.
+Variable deps : nat -> list nat.
+Variable progs : list (list call).
 
-Lemma step_InvA s t th s' : InvA s -> nth_error (thrs s) t = Some th -> stepC s t th s' -> InvA s'.
-Proof.
-  intros [Hl Hd Hn Hfb Hfe] Hnth HS.
-  destruct HS as [k0 Hp E|k0 Hp E|k0 Hp|k0 Hp E|k0 Hp E|k0 Hp E|k0 Hp E|k0 Hp E|k0 Hp|k0 Hp|k0 v Hp|k0 Hp|k0 Hp|k0 Hp
-                 |k0 Hp E|k0 Hp E|k0 Hp E|k0 Hp E|k0 Hp];
-    constructor; intros k;
-    match goal with |- context [set_nth t ?th' _] => cfacts k t th' Hnth end;
-    pose proof (C_sum_le k (thrs s)) as Hsum;
-    specialize (Hl k); specialize (Hd k); specialize (Hn k); specialize (Hfb k); specialize (Hfe k);
-    pose proof (start_cur_neutral (rest th) k) as (Hs1 & Hs2 & Hs3 & Hs4 & Hs5);
-    rewrite Hp in *; csimp; rewrite ?Hs1, ?Hs2, ?Hs3, ?Hs4, ?Hs5 in *; csimp;
-    try (key_case k0 k;
-         try match goal with |- _ \/ _ => solve [auto] end;
-         try (intros Hisd; try rewrite Hisd in *);
-         try (destruct (isd (ents s k)) eqn:Ei; csimp; try discriminate);
-         try (destruct (locked (ents s k)) eqn:El; csimp; try discriminate);
-         try specialize (Hn eq_refl);
-         try lia; try (destruct (Nat.eqb k0 k); csimp; lia)).
-Qed.
+Notation cstep := (cstep fval deps).
+Notation crun := (crun fval deps).
+Notation init := (cinit progs).
+Notation creachable := (creachable fval deps progs).
+Notation stepC := (stepC fval deps).
 
-(* ---- group B: values *)
+(* ---- group B: values, nesting discipline *)
+Definition deps_done (e : nat -> entry) (k : nat) : Prop := forall d, In d (deps k) -> isd (e d) = true.
+
 Definition pc_ok (e : nat -> entry) (p : cpc) : Prop :=
   match p with
-  | DWrite k v => v = fval k
+  | DInF k j => forall m d, m < j -> nth_error (deps k) m = Some d -> isd (e d) = true
+  | DWrite k v => v = fval k /\ deps_done e k
+  | DStore k => deps_done e k
   | DUnlock k | DRead k | GRead k => isd (e k) = true
   | _ => True
   end.
 Definition ret_ok (e : nat -> entry) (cv : call * option nat) : Prop :=
   match cv with
-  | (CDo k, v) => v = Some (fval k) /\ isd (e k) = true
-  | (CGet k, v) => v = None \/ (v = Some (fval k) /\ isd (e k) = true)
+  | (CDo k, v) => v = fval k /\ isd (e k) = true
+  | (CGet k, v) => v = None \/ (v = fval k /\ isd (e k) = true)
   end.
-Definition thr_ok (e : nat -> entry) (th : thr) : Prop := pc_ok e (tpc th) /\ Forall (ret_ok e) (rets th).
+Definition nret_ok (e : nat -> entry) (kv : nat * option nat) : Prop :=
+  snd kv = fval (fst kv) /\ isd (e (fst kv)) = true.
+(* a suspended frame (k, j): the nested calls before the current one (index j-1) have completed *)
+Definition frame_ok (e : nat -> entry) (f : nat * nat) : Prop :=
+  forall m d, S m < snd f -> nth_error (deps (fst f)) m = Some d -> isd (e d) = true.
+(* the call chain: the running Do(cur) is the nested call the top frame is waiting for, and so on down *)
+Fixpoint chain_ok (cur : nat) (st : list (nat * nat)) : Prop :=
+  match st with
+  | [] => True
+  | (k, j) :: r => (exists j0, j = S j0 /\ nth_error (deps k) j0 = Some cur) /\ chain_ok k r
+  end.
+Definition dokey (p : cpc) : option nat :=
+  match p with
+  | DLoad k | DLoadOrStore k | DLoad1 k | DLock k | DLoad2 k | DCall k | DInF k _ | DWrite k _ | DStore k
+  | DUnlock k | DRead k => Some k
+  | _ => None
+  end.
+Definition thr_chain (th : thr) : Prop :=
+  match dokey (tpc th) with Some c => chain_ok c (stack th) | None => stack th = [] end.
+
+Record thr_ok (e : nat -> entry) (th : thr) : Prop := {
+  t_pc : pc_ok e (tpc th);
+  t_rets : Forall (ret_ok e) (rets th);
+  t_nrets : Forall (nret_ok e) (nrets th);
+  t_frames : Forall (frame_ok e) (stack th);
+  t_chain : thr_chain th
+}.
 
 Record InvB (s : cstate) : Prop := {
-  b_res : forall k, (0 < C (is_st k) (thrs s) \/ isd (ents s k) = true) -> result (ents s k) = Some (fval k);
+  b_res : forall k, (0 < C (is_st k) (thrs s) \/ isd (ents s k) = true) -> result (ents s k) = fval k;
+  b_deps : forall k, isd (ents s k) = true -> deps_done (ents s) k;
   b_thr : Forall (thr_ok (ents s)) (thrs s)
 }.
 
-Lemma ret_ok_mono e e' cv : (forall k, isd (e k) = true -> isd (e' k) = true) -> ret_ok e cv -> ret_ok e' cv.
-Proof. intros H; destruct cv as [[k|k] v]; simpl; intuition. Qed.
+Definition mono (e e' : nat -> entry) : Prop := forall k, isd (e k) = true -> isd (e' k) = true.
 
-Lemma thr_ok_mono e e' th : (forall k, isd (e k) = true -> isd (e' k) = true) -> thr_ok e th -> thr_ok e' th.
+Lemma ret_ok_mono e e' cv : mono e e' -> ret_ok e cv -> ret_ok e' cv.
+Proof. intros H; destruct cv as [[k|k] v]; simpl; intuition. Qed.
+Lemma nret_ok_mono e e' kv : mono e e' -> nret_ok e kv -> nret_ok e' kv.
+Proof. intros H [H1 H2]; split; auto. Qed.
+Lemma frame_ok_mono e e' f : mono e e' -> frame_ok e f -> frame_ok e' f.
+Proof. intros H Hf m d Hm Hd; eauto. Qed.
+Lemma deps_done_mono e e' k : mono e e' -> deps_done e k -> deps_done e' k.
+Proof. intros H Hd d Hin; auto. Qed.
+Lemma pc_ok_mono e e' p : mono e e' -> pc_ok e p -> pc_ok e' p.
 Proof.
-  intros H [Hp Hr]; split.
-  - destruct (tpc th); simpl in *; auto.
-  - eapply Forall_impl; [|exact Hr]. intros cv; apply ret_ok_mono; auto.
+  intros H; destruct p; simpl; auto.
+  - intros Hp m d Hm Hd; eauto.
+  - intros [? ?]; split; auto; eapply deps_done_mono; eauto.
+  - apply deps_done_mono; auto.
+Qed.
+
+Lemma thr_ok_mono e e' th : mono e e' -> thr_ok e th -> thr_ok e' th.
+Proof.
+  intros H [H1 H2 H3 H4 H5]; constructor; auto.
+  - eapply pc_ok_mono; eauto.
+  - eapply Forall_impl; [|exact H2]; intros; eapply ret_ok_mono; eauto.
+  - eapply Forall_impl; [|exact H3]; intros; eapply nret_ok_mono; eauto.
+  - eapply Forall_impl; [|exact H4]; intros; eapply frame_ok_mono; eauto.
 Qed.
 
 Lemma init_InvB : InvB init.
 Proof.
   constructor.
   - intros k [H|H]; [|discriminate]. rewrite C_init in H; [lia|]. intros l; apply (start_cur_neutral l k).
-  - unfold cinit; simpl. apply Forall_forall. intros th Hth. apply in_map_iff in Hth as (p & <- & _).
-    split; simpl; [|constructor]. destruct p as [|[] r]; exact I.
+  - intros k H; discriminate.
+  - unfold cinit; cbn [thrs ents]. apply Forall_forall. intros th Hth. apply in_map_iff in Hth as (p & <- & _).
+    constructor; simpl; auto; destruct p as [|[] r]; simpl; auto; try exact I; reflexivity.
 Qed.
 
 Lemma pc_ok_start e l : pc_ok e (fst (start l)).
 Proof. destruct l as [|[] r]; exact I. Qed.
 
-Ltac mono_tac k0 :=
-  let k := fresh "k" in let Hk := fresh "Hk" in
-  intros k Hk; cbn [ents]; unfold upd; try (destruct (Nat.eqb_spec k0 k) as [->|?]); isdsimp; auto.
+Lemma mono_refl e : mono e e. Proof. intros k H; exact H. Qed.
+Lemma mono_upd e k0 x : (isd (e k0) = true -> isd x = true) -> mono e (upd k0 x e).
+Proof. intros H k Hk. unfold upd. destruct (Nat.eqb_spec k0 k) as [->|]; auto. Qed.
+
+(* a thread that only moves its pc inside the same call *)
+Lemma thr_ok_goto e e' th p : mono e e' -> thr_ok e th -> pc_ok e' p -> dokey p = dokey (tpc th) ->
+  thr_ok e' (goto th p).
+Proof.
+  intros Hm Hok Hp Hk. destruct (thr_ok_mono _ _ _ Hm Hok) as [H1 H2 H3 H4 H5].
+  constructor; auto. unfold thr_chain in *. cbn [goto tpc stack]. rewrite Hk. exact H5.
+Qed.
+
+(* a top-level call returns *)
+Lemma thr_ok_ret e th c v : thr_ok e th -> stack th = [] -> ret_ok e (c, v) -> thr_ok e (ret th c v).
+Proof.
+  intros [H1 H2 H3 H4 H5] Hs Hr. constructor; cbn [ret tpc rets nrets stack]; auto.
+  - apply pc_ok_start.
+  - unfold thr_chain. cbn [ret tpc stack]. rewrite Hs. destruct (dokey (fst (start (rest th)))); simpl; auto.
+Qed.
+
+Lemma step_mono s t th s' : InvA s -> nth_error (thrs s) t = Some th -> stepC s t th s' -> mono (ents s) (ents s').
+Proof.
+  intros HA Hn HS; destruct HS; cbn [ents]; try apply mono_refl; apply mono_upd; isdsimp; auto.
+Qed.
 
 Lemma step_InvB s t th s' : InvA s -> InvB s -> nth_error (thrs s) t = Some th -> stepC s t th s' -> InvB s'.
 Proof.
-  intros HA [Hres Hthr] Hnth HS.
-  pose proof (Forall_nth_error _ _ _ _ Hthr Hnth) as [Hpc Hrets].
-  destruct HS as [k0 Hp E|k0 Hp E|k0 Hp|k0 Hp E|k0 Hp E|k0 Hp E|k0 Hp E|k0 Hp E|k0 Hp|k0 Hp|k0 v Hp|k0 Hp|k0 Hp|k0 Hp
-                 |k0 Hp E|k0 Hp E|k0 Hp E|k0 Hp E|k0 Hp];
-    rewrite Hp in Hpc; cbn [pc_ok] in Hpc;
-    (constructor;
-     [ intros k;
-       match goal with |- context [set_nth t ?th' _] => pose proof (C_set_nth (is_st k) t _ th' _ Hnth) as Hst end;
-       pose proof (start_cur_neutral (rest th) k) as (_ & _ & _ & _ & Hs5);
-       specialize (Hres k); rewrite Hp in *; csimp; rewrite ?Hs5 in *; csimp;
-       try (key_case k0 k); intros Hor;
-       try solve [apply Hres; destruct Hor as [Hor|Hor]; [left; lia|right; auto]];
-       try (subst; reflexivity)
-     | cbn [thrs ents];
-       apply Forall_set_nth;
-       [ eapply Forall_impl; [|exact Hthr]; intros th0; apply thr_ok_mono; mono_tac k0
-       | split; cbn [tpc rets goto ret pc_ok];
-         try exact I; try apply pc_ok_start; try reflexivity; try assumption;
-         try (unfold upd; rewrite Nat.eqb_refl; isdsimp; auto; fail);
-         try (eapply Forall_impl; [|exact Hrets]; intros cv; apply ret_ok_mono; mono_tac k0; fail);
-         try (constructor; [|eapply Forall_impl; [|exact Hrets]; intros cv; apply ret_ok_mono; mono_tac k0]) ] ]).
-  all: cbn [ret_ok]; auto.
-  (* store: the writer is still at DStore before the step *)
-  apply Hres. left. pose proof (C_ge1 (is_st k) _ _ _ Hnth) as Hge. rewrite Hp in Hge. simpl in Hge.
-  rewrite Nat.eqb_refl in Hge. specialize (Hge eq_refl). lia.
+  intros HA [Hres Hdeps Hthr] Hnth HS.
+  pose proof (step_mono _ _ _ _ HA Hnth HS) as Hm.
+  pose proof (Forall_nth_error _ _ _ _ Hthr Hnth) as Hok.
+  assert (Hothers : forall th', thr_ok (ents s') th' -> Forall (thr_ok (ents s')) (set_nth t th' (thrs s))).
+  { intros th' H'. apply Forall_set_nth; auto. eapply Forall_impl; [|exact Hthr]. intros; eapply thr_ok_mono; eauto. }
+  assert (Hst : forall k th', C (is_st k) (set_nth t th' (thrs s)) + b2n (is_st k (tpc th)) = C (is_st k) (thrs s) + b2n (is_st k (tpc th'))).
+  { intros k th'. apply C_set_nth; auto. }
+  (* b_res and b_deps when neither the set of DStore threads, nor done, nor result change *)
+  assert (Hkeep : forall th' e', (forall k, is_st k (tpc th') = is_st k (tpc th)) ->
+            (forall k, isd (e' k) = isd (ents s k)) -> (forall k, result (e' k) = result (ents s k)) ->
+            thr_ok e' th' -> mono (ents s) e' ->
+            InvB (mkC (set_nth t th' (thrs s)) e' (plain s')) ).
+  { intros th' e' Hc Hi Hr Hok' Hm'. constructor; cbn [thrs ents].
+    - intros k H. rewrite Hr. apply Hres. specialize (Hst k th'). rewrite Hc in Hst. rewrite Hi in H.
+      destruct H; [left; lia|right; auto].
+    - intros k H d Hd. rewrite Hi in *. specialize (Hdeps k H d Hd). congruence.
+    - apply Forall_set_nth; auto. eapply Forall_impl; [|exact Hthr]. intros; eapply thr_ok_mono; eauto. }
+  destruct Hok as [Hpc Hrets Hnrets Hframes Hchain].
+  assert (Hok : thr_ok (ents s) th) by (constructor; auto).
+  destruct HS as [k0 Hp E|k0 Hp E|k0 Hp|k0 Hp E|k0 Hp E|k0 Hp E|k0 Hp E|k0 Hp E|k0 Hp|k0 j0 Hp E|k0 v Hp|k0 Hp|k0 Hp|k0 Hp E0
+                 |k0 Hp E|k0 Hp E|k0 Hp E|k0 Hp E|k0 Hp|k0 j0 d0 Hp E|k0 k1 j1 st1 Hp E];
+    cbn [ents plain thrs] in *; rewrite Hp in Hpc; cbn [pc_ok] in Hpc.
+  - apply Hkeep; auto; [intros; rewrite Hp; reflexivity|]. apply (thr_ok_goto (ents s)); auto; try (rewrite Hp; reflexivity); try exact I.
+  - apply Hkeep; auto; [intros; rewrite Hp; reflexivity|]. apply (thr_ok_goto (ents s)); auto; try (rewrite Hp; reflexivity); try exact I.
+  - apply Hkeep; auto; try (intros k; unfold upd; destruct (Nat.eqb_spec k0 k) as [->|]; reflexivity);
+      [intros; rewrite Hp; reflexivity|]. apply (thr_ok_goto (ents s)); auto; try (rewrite Hp; reflexivity); try exact I.
+  - apply Hkeep; auto; [intros; rewrite Hp; reflexivity|]. apply (thr_ok_goto (ents s)); auto; try (rewrite Hp; reflexivity); try exact E.
+  - apply Hkeep; auto; [intros; rewrite Hp; reflexivity|]. apply (thr_ok_goto (ents s)); auto; try (rewrite Hp; reflexivity); try exact I.
+  - apply Hkeep; auto; try (intros k; unfold upd; destruct (Nat.eqb_spec k0 k) as [->|]; reflexivity);
+      [intros; rewrite Hp; reflexivity|]. apply (thr_ok_goto (ents s)); auto; try (rewrite Hp; reflexivity); try exact I.
+  - apply Hkeep; auto; [intros; rewrite Hp; reflexivity|]. apply (thr_ok_goto (ents s)); auto; try (rewrite Hp; reflexivity); try exact E.
+  - apply Hkeep; auto; [intros; rewrite Hp; reflexivity|]. apply (thr_ok_goto (ents s)); auto; try (rewrite Hp; reflexivity); try exact I.
+  - (* call f *)
+    apply Hkeep; auto; try (intros k; unfold upd; destruct (Nat.eqb_spec k0 k) as [->|]; reflexivity);
+      [intros; rewrite Hp; reflexivity|]. apply (thr_ok_goto (ents s)); auto; try (rewrite Hp; reflexivity).
+    simpl. intros m d Hlt; lia.
+  - (* f returns *)
+    apply Hkeep; auto; try (intros k; unfold upd; destruct (Nat.eqb_spec k0 k) as [->|]; reflexivity);
+      [intros; rewrite Hp; reflexivity|]. apply (thr_ok_goto (ents s)); auto; try (rewrite Hp; reflexivity).
+    simpl. split; auto. intros d Hd. apply In_nth_error in Hd as [m Hmd].
+    assert (isd (ents s d) = true).
+    { apply (Hpc m); auto. apply nth_error_None in E. apply nth_error_lt in Hmd. lia. }
+    apply Hm; auto.
+  - (* plain write *)
+    destruct Hpc as [-> Hdd].
+    constructor; cbn [thrs ents].
+    + intros k H. unfold upd. destruct (Nat.eqb_spec k0 k) as [->|Hne]; [reflexivity|].
+      apply Hres. specialize (Hst k (goto th (DStore k0))). rewrite Hp in Hst. simpl in Hst.
+      apply Nat.eqb_neq in Hne. rewrite Hne in Hst. unfold upd in H. rewrite Hne in H. simpl in Hst.
+      destruct H; [left; lia|right; auto].
+    + intros k H. eapply deps_done_mono; [exact Hm|]. apply Hdeps.
+      unfold upd in H. destruct (Nat.eqb_spec k0 k) as [->|]; isdsimp; auto.
+    + apply Hothers. apply (thr_ok_goto (ents s)); auto; try (rewrite Hp; reflexivity). simpl. eapply deps_done_mono; eauto.
+  - (* store done *)
+    constructor; cbn [thrs ents].
+    + intros k H. unfold upd. destruct (Nat.eqb_spec k0 k) as [->|Hne]; cbn [result set_done].
+      * apply Hres. left. pose proof (C_ge1 (is_st k) _ _ _ Hnth) as Hge. rewrite Hp in Hge. simpl in Hge.
+        rewrite Nat.eqb_refl in Hge. specialize (Hge eq_refl). lia.
+      * apply Hres. specialize (Hst k (goto th (DUnlock k0))). rewrite Hp in Hst. simpl in Hst.
+        apply Nat.eqb_neq in Hne. rewrite Hne in Hst. unfold upd in H. rewrite Hne in H. simpl in Hst.
+        destruct H; [left; lia|right; auto].
+    + intros k H. eapply deps_done_mono; [exact Hm|].
+      unfold upd in H. destruct (Nat.eqb_spec k0 k) as [->|]; isdsimp; auto.
+    + apply Hothers. apply (thr_ok_goto (ents s)); auto; try (rewrite Hp; reflexivity). simpl. unfold upd. rewrite Nat.eqb_refl. isdsimp. reflexivity.
+  - (* unlock *)
+    apply Hkeep; auto; try (intros k; unfold upd; destruct (Nat.eqb_spec k0 k) as [->|]; reflexivity);
+      [intros; rewrite Hp; reflexivity|]. apply (thr_ok_goto (ents s)); auto; try (rewrite Hp; reflexivity).
+    simpl. unfold upd. rewrite Nat.eqb_refl. isdsimp. exact Hpc.
+  - (* Do returns to the program *)
+    apply Hkeep; auto; [intros k; rewrite Hp; simpl; apply start_st|].
+    apply thr_ok_ret; auto. simpl. split; auto.
+  - apply Hkeep; auto; [intros; rewrite Hp; reflexivity|]. apply (thr_ok_goto (ents s)); auto; try (rewrite Hp; reflexivity); try exact I.
+  - apply Hkeep; auto; [intros k; rewrite Hp; simpl; apply start_st|].
+    apply thr_ok_ret; auto; [|simpl; auto]. unfold thr_chain in Hchain. rewrite Hp in Hchain. exact Hchain.
+  - apply Hkeep; auto; [intros; rewrite Hp; reflexivity|]. apply (thr_ok_goto (ents s)); auto; try (rewrite Hp; reflexivity); try exact E.
+  - apply Hkeep; auto; [intros k; rewrite Hp; simpl; apply start_st|].
+    apply thr_ok_ret; auto; [|simpl; auto]. unfold thr_chain in Hchain. rewrite Hp in Hchain. exact Hchain.
+  - apply Hkeep; auto; [intros k; rewrite Hp; simpl; apply start_st|].
+    apply thr_ok_ret; auto; [|simpl; auto]. unfold thr_chain in Hchain. rewrite Hp in Hchain. exact Hchain.
+  - (* f starts a nested Do *)
+    apply Hkeep; auto; [intros; rewrite Hp; reflexivity|].
+    constructor; cbn [push tpc rets nrets stack]; auto; [exact I| |].
+    + constructor; auto. intros m d Hlt Hd. simpl in *. apply (Hpc m); auto. lia.
+    + unfold thr_chain in *. rewrite Hp in Hchain. simpl in *. split; eauto.
+  - (* a nested Do returns into f *)
+    unfold thr_chain in Hchain. rewrite Hp, E in Hchain. simpl in Hchain. destruct Hchain as [(j2 & -> & Hj2) Hch].
+    rewrite E in Hframes. inversion Hframes as [|f fs Hf Hfs]; subst.
+    apply Hkeep; auto; [intros; rewrite Hp; reflexivity|].
+    constructor; cbn [tpc rets nrets stack]; auto.
+    + simpl. intros m d Hlt Hd. destruct (Nat.eq_dec m j2) as [->|Hne].
+      * rewrite Hj2 in Hd. inversion Hd; subst. exact Hpc.
+      * apply (Hf m d); simpl; auto; lia.
+    + constructor; auto. split; simpl; auto.
 Qed.
 
 (* ---- group C: the history of plain accesses *)
@@ -278,9 +244,10 @@ Record InvP (s : cstate) : Prop := {
 
 Lemma init_InvP : InvP init.
 Proof.
-  constructor; simpl; auto.
-  - intros k (t & w & []).
+  constructor.
+  - intros k (t & w & H). exact (match H with end).
   - intros k [H|H]; [|discriminate]. rewrite C_init in H; [lia|]. intros l; apply (start_cur_neutral l k).
+  - exact I.
 Qed.
 
 Lemma step_InvP s t th s' : InvA s -> InvB s -> InvP s -> nth_error (thrs s) t = Some th -> stepC s t th s' -> InvP s'.
@@ -310,8 +277,8 @@ Proof.
       + rewrite Hc. apply Hacc. eauto.
     - intros k H. rewrite Hc in H. destruct (Hwr k H) as (t' & Ht'). exists t'. right; auto.
     - simpl. split; [apply Hwr; right; auto|auto]. }
-  destruct HS as [k0 Hp E|k0 Hp E|k0 Hp|k0 Hp E|k0 Hp E|k0 Hp E|k0 Hp E|k0 Hp E|k0 Hp|k0 Hp|k0 v Hp|k0 Hp|k0 Hp|k0 Hp
-                 |k0 Hp E|k0 Hp E|k0 Hp E|k0 Hp E|k0 Hp];
+  destruct HS as [k0 Hp E|k0 Hp E|k0 Hp|k0 Hp E|k0 Hp E|k0 Hp E|k0 Hp E|k0 Hp E|k0 Hp|k0 j0 Hp E|k0 v Hp|k0 Hp|k0 Hp|k0 Hp E0
+                 |k0 Hp E|k0 Hp E|k0 Hp E|k0 Hp E|k0 Hp|k0 j0 d0 Hp E|k0 k1 j1 st1 Hp E];
     try (apply Hgen;
             [ intros k; specialize (Hst k); match goal with |- context [set_nth t ?th' _] => specialize (Hst th') end;
               pose proof (start_cur_neutral (rest th) k) as (_ & _ & _ & _ & Hs5);
@@ -352,30 +319,55 @@ Proof.
       * simpl in Hst. destruct H; [left; lia|right; auto].
   - apply Hread with (k0 := k0); auto; intros; apply (start_cur_neutral (rest th)).
   - apply Hread with (k0 := k0); auto; intros; apply (start_cur_neutral (rest th)).
+  - apply Hread with (k0 := k0); auto.
 Qed.
 
 (* ---- group D: each thread executes its program, call by call *)
 Definition cur (p : cpc) : list call :=
   match p with
   | Idle => []
-  | DLoad k | DLoadOrStore k | DLoad1 k | DLock k | DLoad2 k | DCall k | DInF k | DWrite k _ | DStore k
+  | DLoad k | DLoadOrStore k | DLoad1 k | DLock k | DLoad2 k | DCall k | DInF k _ | DWrite k _ | DStore k
   | DUnlock k | DRead k => [CDo k]
   | GLoad k | GLoad1 k | GRead k => [CGet k]
   end.
-Definition calls_of (th : thr) : list call := rev (map fst (rets th)) ++ cur (tpc th) ++ rest th.
+(* the top-level call in progress: that of the bottom frame when f has nested calls running *)
+Fixpoint bottom (st : list (nat * nat)) : option nat :=
+  match st with
+  | [] => None
+  | (k, _) :: r => match bottom r with Some k' => Some k' | None => Some k end
+  end.
+Definition curtop (th : thr) : list call :=
+  match bottom (stack th) with Some k => [CDo k] | None => cur (tpc th) end.
+Definition calls_of (th : thr) : list call := rev (map fst (rets th)) ++ curtop th ++ rest th.
 
 Lemma start_cur l : cur (fst (start l)) ++ snd (start l) = l.
 Proof. destruct l as [|[] r]; reflexivity. Qed.
 
-Lemma step_calls s t th s' : nth_error (thrs s) t = Some th -> stepC s t th s' ->
+Lemma bottom_nil st : bottom st = None -> st = [].
+Proof. destruct st as [|[k j] r]; auto. simpl. destruct (bottom r); discriminate. Qed.
+
+Lemma step_calls s t th s' : thr_chain th -> nth_error (thrs s) t = Some th -> stepC s t th s' ->
   map calls_of (thrs s') = map calls_of (thrs s).
 Proof.
-  intros Hnth HS.
+  intros Hch Hnth HS.
   assert (Hsame : forall th', calls_of th' = calls_of th -> map calls_of (set_nth t th' (thrs s)) = map calls_of (thrs s)).
   { intros th' He. rewrite map_set_nth, He. apply set_nth_same. rewrite nth_error_map, Hnth. reflexivity. }
-  destruct HS; cbn [thrs]; apply Hsame; unfold calls_of; cbn [goto ret tpc rest rets map rev fst];
-    try (rewrite H; reflexivity);
-    rewrite H; cbn [cur]; rewrite <- !app_assoc; cbn [app]; rewrite start_cur; reflexivity.
+  assert (Hgoto : forall p, cur p = cur (tpc th) -> calls_of (goto th p) = calls_of th).
+  { intros p Hc. unfold calls_of, curtop; cbn [goto tpc stack rest rets]. rewrite Hc. reflexivity. }
+  assert (Hret : forall c v, stack th = [] -> cur (tpc th) = [c] -> calls_of (ret th c v) = calls_of th).
+  { intros c v Hs Hc. unfold calls_of, curtop; cbn [ret tpc stack rest rets map rev fst]. rewrite Hs, Hc. simpl.
+    rewrite <- !app_assoc. cbn [app]. rewrite start_cur. reflexivity. }
+  assert (Hget : in_get (tpc th) = true -> stack th = []).
+  { intros Hg. unfold thr_chain in Hch. destruct (tpc th); simpl in *; auto; discriminate. }
+  destruct HS; cbn [thrs]; apply Hsame;
+    try (apply Hgoto; rewrite H; reflexivity);
+    try (apply Hret; [auto; apply Hget; rewrite H; reflexivity|rewrite H; reflexivity]).
+  - (* push *)
+    unfold calls_of, curtop; cbn [push tpc stack rest rets bottom]. rewrite H. cbn [cur].
+    destruct (bottom (stack th)); reflexivity.
+  - (* pop *)
+    unfold calls_of, curtop; cbn [tpc stack rest rets]. rewrite H0. cbn [bottom cur].
+    destruct (bottom st); reflexivity.
 Qed.
 
 Lemma init_calls : map calls_of (thrs init) = progs.
@@ -384,14 +376,80 @@ Proof.
   intros p. unfold calls_of; simpl. apply start_cur.
 Qed.
 
+(* ---- group Q: entries that are in use have been stored in the map *)
+Definition past_store (k : nat) (p : cpc) : bool :=
+  match p with
+  | DLoad1 k' | DLock k' | DLoad2 k' | DCall k' | DInF k' _ | DWrite k' _ | DStore k' | DUnlock k' | DRead k'
+  | GLoad1 k' | GRead k' => Nat.eqb k' k
+  | _ => false
+  end.
+Definition thr_present (e : nat -> entry) (th : thr) : Prop :=
+  (forall k, past_store k (tpc th) = true -> present (e k) = true) /\
+  Forall (fun f : nat * nat => present (e (fst f)) = true) (stack th).
+Record InvQ (s : cstate) : Prop := {
+  q_thr : Forall (thr_present (ents s)) (thrs s);
+  q_done : forall k, isd (ents s k) = true -> present (ents s k) = true
+}.
+
+Lemma init_InvQ : InvQ init.
+Proof.
+  constructor.
+  - unfold cinit; cbn [thrs ents]. apply Forall_forall. intros th Hth. apply in_map_iff in Hth as (p & <- & _).
+    split; simpl; auto. intros k. destruct p as [|[] r]; simpl; discriminate.
+  - intros k H; discriminate.
+Qed.
+
+Lemma past_store_start l k : past_store k (fst (start l)) = false.
+Proof. destruct l as [|[] r]; reflexivity. Qed.
+
+Lemma step_InvQ s t th s' : InvQ s -> nth_error (thrs s) t = Some th -> stepC s t th s' -> InvQ s'.
+Proof.
+  intros [Hthr Hdone] Hnth HS.
+  assert (Hmono : forall k, present (ents s k) = true -> present (ents s' k) = true).
+  { destruct HS; cbn [ents]; auto; intros k' Hk'; unfold upd; destruct (Nat.eqb_spec k k') as [->|]; simpl; auto. }
+  pose proof (Forall_nth_error _ _ _ _ Hthr Hnth) as [Hpc Hfr].
+  assert (Hold : forall th', thr_present (ents s') th' -> Forall (thr_present (ents s')) (set_nth t th' (thrs s))).
+  { intros th' H'. apply Forall_set_nth; auto. eapply Forall_impl; [|exact Hthr].
+    intros x [H1 H2]; split; [intros k Hk; auto|]. eapply Forall_impl; [|exact H2]. simpl; auto. }
+  assert (Hfr' : Forall (fun f : nat * nat => present (ents s' (fst f)) = true) (stack th)).
+  { eapply Forall_impl; [|exact Hfr]. simpl; auto. }
+  assert (Hd : (forall k, isd (ents s' k) = isd (ents s k)) -> forall k, isd (ents s' k) = true -> present (ents s' k) = true).
+  { intros Hi k Hk. rewrite Hi in Hk. auto. }
+  destruct HS as [k0 Hp E|k0 Hp E|k0 Hp|k0 Hp E|k0 Hp E|k0 Hp E|k0 Hp E|k0 Hp E|k0 Hp|k0 j0 Hp E|k0 v Hp|k0 Hp|k0 Hp|k0 Hp E0
+                 |k0 Hp E|k0 Hp E|k0 Hp E|k0 Hp E|k0 Hp|k0 j0 d0 Hp E|k0 k1 j1 st1 Hp E];
+    cbn [ents thrs plain] in *; rewrite Hp in Hpc; constructor; cbn [ents thrs];
+    try (apply Hd; intros k; try unfold upd; try (destruct (Nat.eqb_spec k0 k) as [->|]); reflexivity);
+    try (apply Hold; split; cbn [goto ret push tpc stack]; auto;
+         intros k Hk; simpl in Hk; rewrite ?past_store_start in Hk; try discriminate;
+         apply Nat.eqb_eq in Hk; subst k; try (unfold upd; rewrite Nat.eqb_refl; simpl); auto;
+         try (apply Hmono); try (apply Hpc; simpl; apply Nat.eqb_refl); fail).
+  - (* store *)
+    intros k Hk. unfold upd in *. destruct (Nat.eqb_spec k0 k) as [->|]; simpl; auto.
+    apply Hpc. simpl. apply Nat.eqb_refl.
+  - (* push *)
+    apply Hold; split; cbn [push tpc stack].
+    + intros k Hk; simpl in Hk; discriminate.
+    + constructor; auto. simpl. apply Hpc. simpl. apply Nat.eqb_refl.
+  - (* pop *)
+    rewrite E in Hfr'. inversion Hfr' as [|f fs Hf Hfs]; subst.
+    apply Hold; split; cbn [tpc stack]; auto.
+    intros k Hk; simpl in Hk. apply Nat.eqb_eq in Hk; subst k. exact Hf.
+Qed.
+
 (* ---- all invariants on reachable states *)
+Lemma creachable_InvQ s : creachable s -> InvQ s.
+Proof.
+  induction 1 as [|s t s' Hr IH Hs]; [apply init_InvQ|].
+  apply cstep_inv in Hs as (th & Hnth & HS). eapply step_InvQ; eauto.
+Qed.
+
 Lemma creachable_inv s : creachable s -> InvA s /\ InvB s /\ InvP s /\ map calls_of (thrs s) = progs.
 Proof.
   induction 1 as [|s t s' Hr (HA & HB & HP & HD) Hs].
   - split; [|split; [|split]]; [apply init_InvA|apply init_InvB|apply init_InvP|apply init_calls].
   - apply cstep_inv in Hs as (th & Hnth & HS).
     split; [|split; [|split]]; [eapply step_InvA|eapply step_InvB|eapply step_InvP|]; eauto.
-    rewrite (step_calls _ _ _ _ Hnth HS); auto.
+    rewrite (step_calls _ _ _ _ (t_chain _ _ (Forall_nth_error _ _ _ _ (b_thr _ HB) Hnth)) Hnth HS); auto.
 Qed.
 
 (* ---- group E: a finished thread has no calls left *)
@@ -432,7 +490,7 @@ Qed.
 (* every finished Do(k) returned the value of the one call of f_k, and that call had completed *)
 Theorem do_returns_f_value s t th k v : creachable s -> nth_error (thrs s) t = Some th ->
   In (CDo k, v) (rets th) ->
-  v = Some (fval k) /\ fbegins (ents s k) = 1 /\ fends (ents s k) = 1 /\ result (ents s k) = Some (fval k).
+  v = fval k /\ fbegins (ents s k) = 1 /\ fends (ents s k) = 1 /\ result (ents s k) = fval k.
 Proof.
   intros Hr Hn Hin. destruct (creachable_inv s Hr) as (HA & HB & _).
   pose proof (Forall_nth_error _ _ _ _ (b_thr _ HB) Hn) as [_ Hrets].
@@ -440,9 +498,29 @@ Proof.
   destruct (done_f_complete s k HA Hd). repeat split; auto. apply (b_res _ HB). auto.
 Qed.
 
+(* the same for the Do calls made from inside f (nested on other keys) *)
+Theorem nested_do_returns_f_value s t th k v : creachable s -> nth_error (thrs s) t = Some th ->
+  In (k, v) (nrets th) ->
+  v = fval k /\ fbegins (ents s k) = 1 /\ fends (ents s k) = 1 /\ result (ents s k) = fval k.
+Proof.
+  intros Hr Hn Hin. destruct (creachable_inv s Hr) as (HA & HB & _).
+  pose proof (t_nrets _ _ (Forall_nth_error _ _ _ _ (b_thr _ HB) Hn)) as Hrets.
+  rewrite Forall_forall in Hrets. destruct (Hrets _ Hin) as [Hv Hd]. simpl in *.
+  destruct (done_f_complete s k HA Hd). repeat split; auto. apply (b_res _ HB). auto.
+Qed.
+
+(* a published result was computed after all the nested computations it depends on were published *)
+Theorem done_implies_deps_done s k d : creachable s -> isd (ents s k) = true -> In d (deps k) ->
+  isd (ents s d) = true /\ fends (ents s d) = 1 /\ result (ents s d) = fval d.
+Proof.
+  intros Hr Hk Hd. destruct (creachable_inv s Hr) as (HA & HB & _).
+  pose proof (b_deps _ HB k Hk d Hd) as Hdd. destruct (done_f_complete s d HA Hdd).
+  repeat split; auto. apply (b_res _ HB). auto.
+Qed.
+
 (* a Do(k) that is about to return (only the plain read of e.result is left) returns after f_k completed *)
 Theorem do_after_f s t th k : creachable s -> nth_error (thrs s) t = Some th -> tpc th = DRead k ->
-  fends (ents s k) = 1 /\ result (ents s k) = Some (fval k) /\ C (is_inf k) (thrs s) = 0.
+  fends (ents s k) = 1 /\ result (ents s k) = fval k /\ C (is_inf k) (thrs s) = 0.
 Proof.
   intros Hr Hn Hp. destruct (creachable_inv s Hr) as (HA & HB & _).
   pose proof (Forall_nth_error _ _ _ _ (b_thr _ HB) Hn) as [Hpc _]. rewrite Hp in Hpc. simpl in Hpc.
@@ -453,7 +531,7 @@ Qed.
 (* every finished Get(k) returned nil or the value of the completed call of f_k *)
 Theorem get_nil_or_value s t th k v : creachable s -> nth_error (thrs s) t = Some th ->
   In (CGet k, v) (rets th) ->
-  v = None \/ (v = Some (fval k) /\ fends (ents s k) = 1).
+  v = None \/ (v = fval k /\ fends (ents s k) = 1).
 Proof.
   intros Hr Hn Hin. destruct (creachable_inv s Hr) as (HA & HB & _).
   pose proof (Forall_nth_error _ _ _ _ (b_thr _ HB) Hn) as [_ Hrets].
@@ -469,6 +547,29 @@ Proof.
   - destruct (present (ents s k)); eauto.
   - destruct (isd (ents s k)); eauto.
   - eauto.
+Qed.
+
+(* once computed, always computed *)
+Theorem done_stable s t s' k : creachable s -> cstep s t = Some s' -> isd (ents s k) = true -> isd (ents s' k) = true.
+Proof.
+  intros Hr Hs Hk. destruct (creachable_inv s Hr) as (HA & _).
+  apply cstep_inv in Hs as (th & Hnth & HS). exact (step_mono _ _ _ _ HA Hnth HS k Hk).
+Qed.
+
+(* nil from Get means "not computed yet": once e.done is set for k (in particular after any Do(k) has
+   returned), every step of a Get(k) goes straight on -- Load hits, the done test succeeds, the plain
+   read returns f's value -- whatever the other threads do in between (done_stable) *)
+Theorem get_after_done s t th k : creachable s -> isd (ents s k) = true -> nth_error (thrs s) t = Some th ->
+  (tpc th = GLoad k -> cstep s t = Some (mkC (set_nth t (goto th (GLoad1 k)) (thrs s)) (ents s) (plain s))) /\
+  (tpc th = GLoad1 k -> cstep s t = Some (mkC (set_nth t (goto th (GRead k)) (thrs s)) (ents s) (plain s))) /\
+  (tpc th = GRead k ->
+     cstep s t = Some (mkC (set_nth t (ret th (CGet k) (fval k)) (thrs s)) (ents s) ((t, k, false) :: plain s))).
+Proof.
+  intros Hr Hk Hn. destruct (creachable_inv s Hr) as (HA & HB & _). pose proof (creachable_InvQ s Hr) as HQ.
+  unfold ParCache.cstep. rewrite Hn. repeat split; intros Hp; rewrite Hp.
+  - rewrite (q_done _ HQ k Hk). reflexivity.
+  - rewrite Hk. reflexivity.
+  - rewrite (b_res _ HB k (or_intror Hk)). reflexivity.
 Qed.
 
 (* no data race on e.result: a pending plain write is never concurrent with another thread's
@@ -499,7 +600,7 @@ Qed.
 (* when every thread has finished its program: f_k ran exactly once for every key some Do asked for *)
 Theorem f_exactly_once_at_end s : creachable s -> all_idle s = true ->
   forall p k, In p progs -> In (CDo k) p ->
-  fbegins (ents s k) = 1 /\ fends (ents s k) = 1 /\ result (ents s k) = Some (fval k).
+  fbegins (ents s k) = 1 /\ fends (ents s k) = 1 /\ result (ents s k) = fval k.
 Proof.
   intros Hr Hidle p k Hp Hk.
   destruct (creachable_inv s Hr) as (HA & HB & _ & HD).
@@ -508,7 +609,10 @@ Proof.
   unfold all_idle in Hidle. rewrite forallb_forall in Hidle. specialize (Hidle _ Hth).
   unfold is_idle in Hidle. destruct (tpc th) eqn:Ep; try discriminate.
   rewrite Forall_forall in HE. pose proof (HE _ Hth Ep) as Hrest.
-  unfold calls_of in Hk. rewrite Ep, Hrest in Hk. simpl in Hk. rewrite app_nil_r in Hk.
+  assert (Hst : stack th = []).
+  { pose proof (t_chain _ _ (proj1 (Forall_forall _ _) (b_thr _ HB) _ Hth)) as Hc.
+    unfold thr_chain in Hc. rewrite Ep in Hc. exact Hc. }
+  unfold calls_of, curtop in Hk. rewrite Hst, Ep, Hrest in Hk. simpl in Hk. rewrite app_nil_r in Hk.
   apply in_rev in Hk. apply in_map_iff in Hk as ([c v] & Hc & Hin). simpl in Hc; subst c.
   apply In_nth_error in Hth as [t Ht].
   destruct (do_returns_f_value s t th k v Hr Ht Hin) as (_ & ? & ? & ?). auto.
@@ -519,10 +623,11 @@ Lemma step_some s t th : nth_error (thrs s) t = Some th -> tpc th <> Idle ->
   (forall k, tpc th = DLock k -> locked (ents s k) = false) -> exists s', cstep s t = Some s'.
 Proof.
   intros Hn Hi Hl. unfold ParCache.cstep. rewrite Hn.
-  destruct (tpc th) eqn:Ep; try congruence; eauto.
-  - rewrite (Hl k eq_refl). eauto.
-  - destruct (present (ents s k)); eauto.
-  - destruct (isd (ents s k)); eauto.
+  destruct (tpc th) eqn:Ep; try congruence; eauto;
+    try (rewrite (Hl k eq_refl); eauto; fail);
+    try (destruct (nth_error (deps k) j); eauto; fail);
+    try (destruct (present (ents s k)); eauto; fail);
+    try (destruct (isd (ents s k)); eauto; fail).
 Qed.
 
 Lemma forallb_false {A} (f : A -> bool) l : forallb f l = false -> exists x, In x l /\ f x = false.
@@ -533,50 +638,8 @@ Proof.
   - exists a; auto.
 Qed.
 
-(* no deadlock: unless every thread has finished its program, some thread has a step (a thread
-   blocked in Lock implies a holder, and the holder is never blocked) *)
-Theorem cache_no_deadlock s : creachable s -> all_idle s = true \/ exists t s', cstep s t = Some s'.
-Proof.
-  intros Hr. destruct (creachable_inv s Hr) as (HA & _).
-  destruct (all_idle s) eqn:Ei; auto. right.
-  apply forallb_false in Ei as (th & Hth & Hni). apply In_nth_error in Hth as [t Ht].
-  assert (Hnot : tpc th <> Idle) by (unfold is_idle in Hni; destruct (tpc th); congruence).
-  destruct (tpc th) eqn:Ep; try (exists t; apply (step_some s t th Ht); rewrite Ep; congruence).
-  (* th waits for the mutex of k *)
-  destruct (locked (ents s k)) eqn:El.
-  - pose proof (a_lock _ HA k) as Hl. rewrite El in Hl. simpl in Hl.
-    destruct (cntg_exists (fun th => holds k (tpc th)) (thrs s)) as (t2 & th2 & Ht2 & Hh); [unfold C in Hl; lia|].
-    exists t2. apply (step_some s t2 th2 Ht2); destruct (tpc th2); simpl in Hh; congruence.
-  - exists t. apply (step_some s t th Ht); rewrite Ep; [congruence|]. intros k' Hk'; inversion Hk'; subst; auto.
-Qed.
-
-Lemma tweight_ret th c v : 2 <= rank (tpc th) -> tweight (ret th c v) < tweight th.
-Proof.
-  unfold tweight, ret; simpl. destruct (rest th) as [|[] r]; simpl; lia.
-Qed.
-
-(* every step consumes the measure: no schedule is infinite (f_k is assumed to return: its
-   return step is always enabled) *)
-Theorem psi_decreases s t s' : cstep s t = Some s' -> psi s' < psi s.
-Proof.
-  intros Hs. apply cstep_inv in Hs as (th & Hn & HS). unfold psi.
-  assert (Hgen : forall th', tweight th' < tweight th ->
-            list_sum (map tweight (set_nth t th' (thrs s))) < list_sum (map tweight (thrs s))).
-  { intros th' Hlt. pose proof (sum_set_nth tweight t th' th _ Hn). lia. }
-  destruct HS; cbn [thrs]; apply Hgen; try (apply tweight_ret; rewrite H; simpl; lia);
-    unfold tweight; cbn [goto tpc rest]; rewrite H; simpl; lia.
-Qed.
-
 Lemma crun_cons t sch s : crun (t :: sch) s = match cstep s t with Some s' => crun sch s' | None => None end.
 Proof. reflexivity. Qed.
-
-Theorem cache_terminates sch : forall s s', crun sch s = Some s' -> length sch + psi s' <= psi s.
-Proof.
-  induction sch as [|t sch IH]; intros s s' H; [|rewrite crun_cons in H].
-  - inversion H; subst; simpl; lia.
-  - destruct (cstep s t) as [s1|] eqn:E; [|discriminate].
-    pose proof (psi_decreases _ _ _ E). specialize (IH _ _ H). simpl. lia.
-Qed.
 
 Lemma crun_reachable sch : forall s s', creachable s -> crun sch s = Some s' -> creachable s'.
 Proof.
@@ -585,17 +648,170 @@ Proof.
   - destruct (cstep s t) as [s1|] eqn:E; [|discriminate]. eapply IH; [|exact H]. eapply creach_step; eauto.
 Qed.
 
-(* every Do terminates: from any reachable state some continuation of at most psi(s) steps ends
-   with all programs finished *)
-Theorem cache_can_finish s : creachable s ->
-  exists sch s', crun sch s = Some s' /\ all_idle s' = true /\ length sch <= psi s.
+(* ---- progress and termination need the dependency relation between keys to be acyclic:
+   a level function that strictly decreases along [deps] *)
+Section Acyclic.
+Variable L : nat -> nat.
+Hypothesis L_dec : forall k d, In d (deps k) -> L d < L k.
+
+Lemma chain_levels cur st : chain_ok cur st -> Forall (fun f : nat * nat => L cur < L (fst f)) st.
 Proof.
-  remember (psi s) as m eqn:Em. revert s Em.
+  revert cur; induction st as [|[k j] r IH]; intros cur H; [constructor|].
+  destruct H as [(j0 & -> & Hn) Hr]. apply nth_error_In in Hn. pose proof (L_dec _ _ Hn) as Hlt.
+  constructor; [exact Hlt|]. eapply Forall_impl; [|apply (IH k Hr)]. simpl; intros; lia.
+Qed.
+
+Lemma fr_frame k th : 0 < fr k th -> exists j, In (k, j) (stack th).
+Proof.
+  intros H. unfold fr in H. apply cntg_exists in H as (i & [k' j] & Hi & Hk). simpl in Hk.
+  apply Nat.eqb_eq in Hk; subst. exists j. eapply nth_error_In; eauto.
+Qed.
+
+(* a thread waiting for e.mu of k: the holder is running, or itself waits for a key of lower level *)
+Lemma blocked_progress s : InvA s -> InvB s -> forall m t th k, nth_error (thrs s) t = Some th ->
+  tpc th = DLock k -> L k <= m -> exists t' s', cstep s t' = Some s'.
+Proof.
+  intros HA HB. induction m as [|m IH]; intros t th k Ht Hp Hl.
+  all: destruct (locked (ents s k)) eqn:El;
+    [|exists t; apply (step_some s t th Ht); rewrite Hp; [congruence|]; intros k' Hk'; inversion Hk'; subst; auto].
+  all: pose proof (a_lock _ HA k) as Hlk; rewrite El in Hlk; simpl in Hlk.
+  all: destruct (C (holds k) (thrs s)) eqn:Eh;
+    [|destruct (cntg_exists (fun th => holds k (tpc th)) (thrs s)) as (t2 & th2 & Ht2 & Hh); [unfold C in Eh; lia|];
+      exists t2; apply (step_some s t2 th2 Ht2); destruct (tpc th2); simpl in Hh; congruence].
+  all: destruct (F_exists k (thrs s)) as (t2 & th2 & Ht2 & Hf); [lia|].
+  all: apply fr_frame in Hf as (j & Hj).
+  all: pose proof (t_chain _ _ (Forall_nth_error _ _ _ _ (b_thr _ HB) Ht2)) as Hc; unfold thr_chain in Hc.
+  all: destruct (dokey (tpc th2)) as [c|] eqn:Ek; [|rewrite Hc in Hj; destruct Hj].
+  all: pose proof (chain_levels _ _ Hc) as Hlv; rewrite Forall_forall in Hlv; specialize (Hlv _ Hj); simpl in Hlv.
+  - lia.
+  - destruct (tpc th2) eqn:Ep2; simpl in Ek; try discriminate; inversion Ek; subst;
+      try (exists t2; apply (step_some s t2 th2 Ht2); rewrite Ep2; congruence).
+    apply (IH t2 th2 c Ht2 Ep2). lia.
+Qed.
+
+(* no deadlock: unless every thread has finished its program, some thread has a step *)
+Theorem cache_no_deadlock s : creachable s -> all_idle s = true \/ exists t s', cstep s t = Some s'.
+Proof.
+  intros Hr. destruct (creachable_inv s Hr) as (HA & HB & _).
+  destruct (all_idle s) eqn:Ei; auto. right.
+  apply forallb_false in Ei as (th & Hth & Hni). apply In_nth_error in Hth as [t Ht].
+  assert (Hnot : tpc th <> Idle) by (unfold is_idle in Hni; destruct (tpc th); congruence).
+  destruct (tpc th) eqn:Ep; try (exists t; apply (step_some s t th Ht); rewrite Ep; congruence).
+  eapply blocked_progress; eauto.
+Qed.
+
+(* the cost of one Do(k), nested calls included: defined by recursion on the level *)
+Fixpoint cost (fuel : nat) (k : nat) : nat :=
+  match fuel with
+  | 0 => 13
+  | S f => 13 + list_sum (map (fun d => S (cost f d)) (deps k))
+  end.
+Definition kcL (k : nat) : nat := cost (L k) k.
+
+Lemma cost_stable f : forall f' k, L k <= f -> L k <= f' -> cost f k = cost f' k.
+Proof.
+  induction f as [|f IH]; intros f' k H1 H2.
+  - assert (Hd : deps k = []) by (destruct (deps k) as [|d r] eqn:E; auto; pose proof (L_dec k d); rewrite E in *; simpl in *; lia).
+    destruct f'; cbn [cost]; rewrite ?Hd; reflexivity.
+  - destruct f' as [|f'].
+    + assert (Hd : deps k = []) by (destruct (deps k) as [|d r] eqn:E; auto; pose proof (L_dec k d); rewrite E in *; simpl in *; lia).
+      cbn [cost]; rewrite Hd; reflexivity.
+    + cbn [cost]. f_equal. f_equal. apply map_ext_in. intros d Hd. f_equal. pose proof (L_dec _ _ Hd). apply IH; lia.
+Qed.
+
+Lemma kcL_ok k : 13 + nested deps kcL k 0 <= kcL k.
+Proof.
+  unfold nested, kcL. simpl skipn. destruct (L k) as [|f] eqn:E.
+  - assert (Hd : deps k = []) by (destruct (deps k) as [|d r] eqn:E'; auto; pose proof (L_dec k d); rewrite E' in *; simpl in *; lia).
+    rewrite Hd. cbn [cost map list_sum fold_right]. lia.
+  - cbn [cost]. apply Nat.add_le_mono_l. apply Nat.eq_le_incl. f_equal. apply map_ext_in. intros d Hd. f_equal.
+    pose proof (L_dec _ _ Hd). apply cost_stable; lia.
+Qed.
+End Acyclic.
+
+(* ---- the measure decreases, for any cost function that dominates its own recursive equation *)
+Section Measure.
+Variable kc : nat -> nat.
+Hypothesis kc_ok : forall k, 13 + nested deps kc k 0 <= kc k.
+
+Notation psi := (psi deps kc).
+Notation tweight := (tweight deps kc).
+Notation rank := (rank deps kc).
+Notation nested := (nested deps kc).
+
+Lemma list_sum_cons' a l : list_sum (a :: l) = a + list_sum l.
+Proof. reflexivity. Qed.
+
+Lemma nested_step k j d : nth_error (deps k) j = Some d -> nested k j = S (kc d) + nested k (S j).
+Proof.
+  unfold ParCache.nested. intros H.
+  assert (Hs : skipn j (deps k) = d :: skipn (S j) (deps k)).
+  { revert j H. generalize (deps k). induction l as [|a l IH]; intros [|j] H; simpl in *; try discriminate.
+    - inversion H; reflexivity.
+    - apply IH; auto. }
+  rewrite Hs. reflexivity.
+Qed.
+
+Lemma rank_start_lt l : forall c r, l = c :: r -> rank (fst (start l)) < call_cost kc c.
+Proof.
+  intros c r ->. destruct c as [k|k]; simpl; [pose proof (kc_ok k); lia|lia].
+Qed.
+
+Lemma tweight_ret th c v : 2 <= rank (tpc th) -> tweight (ret th c v) < tweight th.
+Proof.
+  unfold ParCache.tweight, ret; cbn [tpc stack rest]. intros H.
+  destruct (rest th) as [|c0 r] eqn:E.
+  - simpl. lia.
+  - pose proof (rank_start_lt (c0 :: r) c0 r eq_refl) as Hlt.
+    assert (Hsnd : snd (start (c0 :: r)) = r) by (destruct c0; reflexivity).
+    rewrite Hsnd. cbn [map]. rewrite !list_sum_cons'.
+    generalize dependent (rank (fst (start (c0 :: r)))). intros a Hlt. lia.
+Qed.
+
+(* every step consumes the measure: no schedule is infinite (f_k is assumed to return once its
+   nested calls have returned: its return step is always enabled) *)
+Theorem psi_decreases s t s' : cstep s t = Some s' -> psi s' < psi s.
+Proof.
+  intros Hs. apply cstep_inv in Hs as (th & Hn & HS). unfold ParCache.psi.
+  assert (Hgen : forall th', tweight th' < tweight th ->
+            list_sum (map tweight (set_nth t th' (thrs s))) < list_sum (map tweight (thrs s))).
+  { intros th' Hlt. pose proof (sum_set_nth tweight t th' th _ Hn). lia. }
+  destruct HS as [k0 Hp E|k0 Hp E|k0 Hp|k0 Hp E|k0 Hp E|k0 Hp E|k0 Hp E|k0 Hp E|k0 Hp|k0 j0 Hp E|k0 v Hp|k0 Hp|k0 Hp|k0 Hp E0
+                 |k0 Hp E|k0 Hp E|k0 Hp E|k0 Hp E|k0 Hp|k0 j0 d0 Hp E|k0 k1 j1 st1 Hp E];
+    cbn [thrs]; apply Hgen;
+    try (apply tweight_ret; rewrite Hp; simpl; lia);
+    unfold ParCache.tweight; cbn [goto push tpc stack rest]; rewrite Hp; cbn [ParCache.rank].
+  all: try lia.
+  - (* nested call *)
+    rewrite (nested_step _ _ _ E). cbn [map]. rewrite list_sum_cons'. change (frame_cost deps kc (k0, S j0)) with (6 + nested k0 (S j0)). pose proof (kc_ok d0). lia.
+  - (* nested return *)
+    rewrite E. cbn [map]. rewrite list_sum_cons'. change (frame_cost deps kc (k1, j1)) with (6 + nested k1 j1). lia.
+Qed.
+
+Theorem cache_terminates sch : forall s s', crun sch s = Some s' -> length sch + psi s' <= psi s.
+Proof.
+  induction sch as [|t sch IH]; intros s s' H; [|rewrite crun_cons in H].
+  - inversion H; subst; simpl; lia.
+  - destruct (cstep s t) as [s1|] eqn:E; [|discriminate].
+    pose proof (psi_decreases _ _ _ E). specialize (IH _ _ H). simpl. lia.
+Qed.
+End Measure.
+
+Corollary cache_terminates_acyclic L : (forall k d, In d (deps k) -> L d < L k) ->
+  forall sch s s', crun sch s = Some s' -> length sch + psi deps (kcL L) s' <= psi deps (kcL L) s.
+Proof. intros HL. apply cache_terminates. apply kcL_ok; auto. Qed.
+
+(* every Do terminates when the dependencies are acyclic: from any reachable state some continuation
+   of at most psi(s) steps ends with all programs finished *)
+Theorem cache_can_finish L : (forall k d, In d (deps k) -> L d < L k) -> forall s, creachable s ->
+  exists sch s', crun sch s = Some s' /\ all_idle s' = true /\ length sch <= psi deps (kcL L) s.
+Proof.
+  intros HL s. remember (psi deps (kcL L) s) as m eqn:Em. revert s Em.
   induction m as [m IH] using lt_wf_ind. intros s Em Hr.
-  destruct (cache_no_deadlock s Hr) as [Hd|(t & s1 & Hs)].
+  destruct (cache_no_deadlock L HL s Hr) as [Hd|(t & s1 & Hs)].
   - exists [], s; simpl; repeat split; auto; lia.
-  - pose proof (psi_decreases _ _ _ Hs) as Hlt.
-    destruct (IH (psi s1)) with (s := s1) as (sch & s' & Hrun & Hd & Hlen); auto; [lia|eapply creach_step; eauto|].
+  - pose proof (psi_decreases (kcL L) (kcL_ok L HL) _ _ _ Hs) as Hlt.
+    destruct (IH (psi deps (kcL L) s1)) with (s := s1) as (sch & s' & Hrun & Hd & Hlen); auto; [lia|eapply creach_step; eauto|].
     exists (t :: sch), s'. rewrite crun_cons, Hs. repeat split; auto. simpl; lia.
 Qed.
 
